@@ -333,6 +333,45 @@ def build_specs(pairs, files, glob, twice=False):
         shutil.rmtree(d, ignore_errors=True)
 
 
+def build_specs_cli(pairs, files, glob):
+    """The same through the command line's own wiring: global options and -a/-g/-b (R1) plus -A/-G/-B (R2) options
+    are parsed by cutadapt's argument parser and handed to cli.adapters_from_args()."""
+    from cutadapt.cli import adapters_from_args, get_argument_parser
+    import os
+    import shutil
+    import tempfile
+
+    cli.reset_globals()
+    argv = []
+    if "e" in glob:
+        argv += ["-e", str(glob["e"])]
+    if "O" in glob:
+        argv += ["-O", str(glob["O"])]
+    if glob.get("indels") is False:
+        argv.append("--no-indels")
+    if glob.get("N"):
+        argv.append("-N")
+    if glob.get("rw"):
+        argv.append("--match-read-wildcards")
+    letter = {"back": "a", "front": "g", "anywhere": "b"}
+    for ctype, spec in pairs:
+        argv += ["-" + letter[ctype], spec]
+    for ctype, spec in pairs:
+        argv += ["-" + letter[ctype].upper(), spec]
+    cwd = os.getcwd()
+    d = tempfile.mkdtemp(prefix="c18", dir=cli.scratch_root())
+    try:
+        os.chdir(d)
+        for n, c in files.items():
+            with open(n, "w") as fh:
+                fh.write(c)
+        args = get_argument_parser().parse_args(argv + ["in.fastq"])
+        return adapters_from_args(args) + (argv,)
+    finally:
+        os.chdir(cwd)
+        shutil.rmtree(d, ignore_errors=True)
+
+
 def verify_built(case, built, what, auto_name="1"):
     """Compare the adapters built for one specification with its meaning. Returns non-triviality."""
     from cutadapt import adapters as A
@@ -442,6 +481,20 @@ def check_multi(case, ctx):
             pos += k
         if pos != len(blist):
             raise Violation(f"{len(blist)} adapters built, expected {pos} ({pairs})")
+    # ... and through the argument parser and cli.adapters_from_args(): global options must reach the R1 and the
+    # R2 adapters alike
+    try:
+        cb1, cb2, argv = build_specs_cli(pairs, files, glob)
+    except Exception as e:  # noqa
+        raise Violation(f"valid command line for {pairs} (global {glob}) was rejected: {type(e).__name__}: {e}")
+    for which, blist in (("command line, R1 adapters", cb1), ("command line, R2 adapters", cb2)):
+        pos = 0
+        for c, (ctype, spec) in zip(case["cases"], pairs):
+            k = n_built(c)
+            verify_built(c, blist[pos:pos + k], f"{spec!r} in {argv} ({which})")
+            pos += k
+        if pos != len(blist):
+            raise Violation(f"{len(blist)} adapters built from {argv}, expected {pos} ({which})")
     ctx.label("specs:%d" % len(pairs))
     if any(c["variant"] == "file" and c["file"]["params"] for c in case["cases"][:-1]):
         ctx.label("file-params-before-other-spec")
